@@ -54,11 +54,16 @@ type op struct {
 	// multi: the operation starts more than one chain from the handle it is given, so the handle has to be a
 	// reusable one (a session); a chain value (result of Set/Where/Scopes...) is good for one chain only
 	multi bool
+	// noScope: the operation makes driver calls before / without running the scopes of the handle it is given (it opens
+	// with Transaction / SavePoint, is an association-mode call, or inserts in several batches inside a block of its
+	// own): when a context bound by a scope takes effect for it is not fixed by the statement
+	noScope bool
 }
 
 var readKinds = []string{"PreloadNested", "PreloadAll", "JoinsCompany", "FindInBatches", "Rows", "Scan", "Pluck", "Count", "First", "Last", "FirstOrCreate", "FirstOrInit",
 	"AssocAppend", "AssocReplace", "AssocDelete", "AssocClear", "AssocCount", "AssocFind", "AssocAppendM2M", "AssocReplaceM2M", "Raw", "Exec", "SavePoint", "PreloadCond",
-	"NestedTxError", "NestedTxPanic", "TxError", "SoftDeleteReturning", "SoftDeleteWhere", "UpsertCompany"}
+	"NestedTxError", "NestedTxPanic", "TxError", "SoftDeleteReturning", "SoftDeleteWhere", "UpsertCompany",
+	"FindInBatchesLimit", "Row", "Take", "FindMaps", "JoinsPreloadNested", "ScopeSession"}
 
 // doc is soft-deleted: its Delete is an UPDATE (with RETURNING: sent as a query and scanned back)
 type doc struct {
@@ -75,10 +80,15 @@ func genOp(r *core.Rand, idx int) op {
 	nk := len(txm.OpKinds)
 	if idx%(nk+len(readKinds)) < nk {
 		o := txm.GenOp(txm.OpKinds[idx%(nk+len(readKinds))], r.U64())
-		return op{desc: o.Desc, run: func(db *gorm.DB) error { return o.Run(db).Error }}
+		// CreateInBatches over several batches opens a block of its own (BEGIN / SAVEPOINT) before any scope runs
+		return op{desc: o.Desc, run: func(db *gorm.DB) error { return o.Run(db).Error }, noScope: o.Kind == "CreateInBatches"}
 	}
 	kind := readKinds[idx%(nk+len(readKinds))-nk]
 	o := op{desc: kind}
+	switch {
+	case strings.HasPrefix(kind, "Assoc"), kind == "SavePoint", kind == "NestedTxError", kind == "NestedTxPanic", kind == "TxError":
+		o.noScope = true
+	}
 	switch kind {
 	case "PreloadNested":
 		o.run = func(db *gorm.DB) error {
@@ -100,6 +110,36 @@ func genOp(r *core.Rand, idx int) op {
 				var n int64
 				return tx.Model(&txm.Order{}).Count(&n).Error
 			}).Error
+		}
+	case "FindInBatchesLimit":
+		// conditions, a limit and an offset: the batches after the first come from a session FindInBatches derives again;
+		// the batch handle writes
+		o.run = func(db *gorm.DB) error {
+			var us []txm.User
+			return db.Where("age > ?", 0).Or("name = ?", "nobody").Limit(5).Offset(1).FindInBatches(&us, 2, func(tx *gorm.DB, batch int) error {
+				return tx.Model(&txm.User{ID: us[0].ID}).UpdateColumn("age", gorm.Expr("age + ?", 1)).Error
+			}).Error
+		}
+	case "Row":
+		o.run = func(db *gorm.DB) error {
+			var name string
+			return db.Model(&txm.User{}).Select("name").Where("id = ?", 1).Row().Scan(&name)
+		}
+	case "Take":
+		o.run = func(db *gorm.DB) error { return db.Preload("Notes").Take(&txm.User{}, 2).Error }
+	case "FindMaps":
+		o.run = func(db *gorm.DB) error {
+			return db.Model(&txm.User{}).Where("age > ?", 1).Find(&[]map[string]interface{}{}).Error
+		}
+	case "JoinsPreloadNested":
+		o.run = func(db *gorm.DB) error {
+			return db.Joins("Company").Preload("Orders.Lines").Preload("Notes").Order("users.id").Find(&[]txm.User{}).Error
+		}
+	case "ScopeSession":
+		// scopes of the operation's own chain that add a condition and hand back a new session: the context stays
+		o.run = func(db *gorm.DB) error {
+			return db.Scopes(func(d *gorm.DB) *gorm.DB { return d.Where("age > ?", 1) }, func(d *gorm.DB) *gorm.DB { return d.Session(&gorm.Session{}) }).
+				Preload("Orders").Find(&[]txm.User{}).Error
 		}
 	case "Rows":
 		o.multi = true
@@ -255,6 +295,23 @@ func ctxEvents(evs []recdrv.Event) []recdrv.Event {
 	return out
 }
 
+// binding says where and how the operation's context is bound.
+type binding struct {
+	// how: 0 on the receiver (WithContext / Session{Context}); 1 by a scope that hands back d.WithContext(ctx);
+	// 2 by a scope that hands back d.Session(&gorm.Session{Context: ctx})
+	how int
+	// depth: number of Transaction blocks already open when the context is bound (0 = before everything; a scope
+	// binds on the handle given to the operation itself: depth == nest)
+	depth int
+	// outer: what the handle is bound to before that (the blocks opened above run under it): 0 nothing
+	// (context.Background()), 1 another live context carrying the value "outer-of-<op>"
+	outer int
+}
+
+// span: positions in the driver log of one run: [pre, lo) is what binding the handle sent (the siblings' statements),
+// [lo, hi) what was sent on behalf of the bound handle
+type span struct{ pre, lo, hi int }
+
 func run(c *core.Ctx) {
 	r := c.R
 	prep := c.Case%2 == 1
@@ -283,19 +340,40 @@ func run(c *core.Ctx) {
 	sibling := r.Intn(6) // what else is derived from the context-bound handle before the operation uses it
 	sibCtx := r.Intn(3)  // the sibling's context: alive, already cancelled, deadline passed
 	sibUse := r.Intn(2)  // what the sibling is used for
-	// the bound handle may be a chain value (a chain method was called on it: clone == 0) instead of a session
-	chain := r.Intn(7)
-	if chain > 4 || (o.multi && nest == 0) {
-		chain = 0
-	}
+	chain := r.Intn(7)   // the bound handle may be a chain value (a chain method was called on it: clone == 0) instead of a session
 	manualTx := r.Intn(3) == 0 && nest > 0 // outermost transaction by Begin / Commit / Rollback instead of a Transaction block
 	sess := r.Intn(7)                      // further session options on the bound handle
 	if sess > 3 || (prep && sess != 3) {
 		sess = 0
 	}
+	// where the context is bound: before everything (half of the cases), inside the 1st..nest-th Transaction block
+	// (on the block's tx), or by a scope of the chain handed to the operation
+	var bd binding
+	switch b := r.Intn(10); {
+	case b >= 8 && !o.noScope && !o.multi:
+		bd.how, bd.depth = 1+r.Intn(2), nest
+	case b >= 5 && nest > 0:
+		bd.depth = r.Range(1, nest)
+	}
+	if bd.how != 0 || bd.depth > 0 {
+		bd.outer = r.Intn(2)
+	}
+	// a chain value is good for ONE chain: an operation that starts two gets it only through a Transaction block
+	if chain > 4 || (o.multi && bd.depth == nest) {
+		chain = 0
+	}
+	outerID := "outer-of-" + opID
+	var outerVal interface{}
+	if bd.outer == 1 {
+		outerVal = outerID
+	}
+	bindDesc := []string{map[bool]string{true: "Session{Context}", false: "WithContext"}[viaSession], "Scopes(func(d) d.WithContext(ctx))", "Scopes(func(d) d.Session(&Session{Context: ctx}))"}[bd.how]
+	if bd.depth > 0 || bd.how != 0 {
+		bindDesc += fmt.Sprintf(" on the handle inside %d open block(s), outer handle %s", bd.depth, []string{"unbound", "bound to another live context"}[bd.outer])
+	}
 	desc := fmt.Sprintf("prepareStmt=%v context=%s nest=%d%s via=%s session=%s chain=%s sibling=%d/%s :: %s", prep, []string{"value", "value+deadline", "value+cancellable"}[ctxKind], nest,
-		map[bool]string{true: "(outermost by Begin/Commit)", false: ""}[manualTx], map[bool]string{true: "Session{Context}", false: "WithContext"}[viaSession],
-		[]string{"-", "bound.Session{PrepareStmt}", "root.Session{PrepareStmt} then bound", "bound.Session{SkipDefaultTransaction}"}[sess],
+		map[bool]string{true: "(outermost by Begin/Commit)", false: ""}[manualTx], bindDesc,
+		[]string{"-", "bound.Session{PrepareStmt}", "handle.Session{PrepareStmt} then bound", "bound.Session{SkipDefaultTransaction}"}[sess],
 		[]string{"-", "bound.Set(k,v)", "bound.Scopes(identity)", "bound.Where(\"1 = 1\")", "bound.InstanceSet(k,v)"}[chain],
 		sibling, []string{"live", "cancelled", "expired"}[sibCtx], o.desc)
 	c.Logf("OP %s", desc)
@@ -310,15 +388,24 @@ func run(c *core.Ctx) {
 		other, cancelO = context.WithDeadline(other, time.Unix(1, 0))
 		defer cancelO()
 	}
-	mk := func(ctx context.Context) *gorm.DB {
-		root := h.DB
+	bindScope := func(how int, ctx context.Context) func(*gorm.DB) *gorm.DB {
+		if how == 2 {
+			return func(d *gorm.DB) *gorm.DB { return d.Session(&gorm.Session{Context: ctx}) }
+		}
+		return func(d *gorm.DB) *gorm.DB { return d.WithContext(ctx) }
+	}
+	// bindTo binds the handle at hand (the root handle, or the tx of a Transaction block) to ctx
+	bindTo := func(root *gorm.DB, ctx context.Context) *gorm.DB {
 		if sess == 2 {
 			root = root.Session(&gorm.Session{PrepareStmt: true})
 		}
 		var base *gorm.DB
-		if viaSession {
+		switch {
+		case bd.how != 0:
+			base = root.Scopes(bindScope(bd.how, ctx))
+		case viaSession:
 			base = root.Session(&gorm.Session{Context: ctx})
-		} else {
+		default:
 			base = root.WithContext(ctx)
 		}
 		switch sess {
@@ -365,9 +452,29 @@ func run(c *core.Ctx) {
 		}
 		return base
 	}
-	exec := func(db *gorm.DB) error {
+	// exec runs the operation inside its blocks; [lo, hi) is the part of the driver log made on behalf of the handle
+	// bound to ctx (the operation and the blocks opened from the bound handle); what lies outside (the blocks opened
+	// above the binding, their SAVEPOINT / ROLLBACK TO) belongs to the outer handle.
+	// rebind: 1 / 2 = the bound handle is bound again to context.Background() (WithContext / Session{Context};
+	// for a scope binding: by one more scope of that form)
+	exec := func(ctx context.Context, rebind int) (err error, w span) {
+		pre, lo, hi := -1, -1, -1
 		var f func(db *gorm.DB, n int) error
 		f = func(db *gorm.DB, n int) error {
+			if nest-n == bd.depth {
+				pre = h.Rec.Mark() // what the siblings derived while binding send is theirs
+				db = bindTo(db, ctx)
+				switch {
+				case rebind != 0 && bd.how != 0:
+					db = db.Scopes(bindScope(rebind, context.Background()))
+				case rebind == 1:
+					db = db.WithContext(context.Background())
+				case rebind == 2:
+					db = db.Session(&gorm.Session{Context: context.Background()})
+				}
+				lo = h.Rec.Mark()
+				defer func() { hi = h.Rec.Mark() }()
+			}
 			if n == 0 {
 				return o.run(db)
 			}
@@ -384,18 +491,41 @@ func run(c *core.Ctx) {
 			}
 			return db.Transaction(func(tx *gorm.DB) error { return f(tx, n-1) })
 		}
-		return f(db, nest)
+		root := h.DB
+		if bd.outer == 1 {
+			root = h.DB.WithContext(context.WithValue(context.Background(), ctxKey{}, outerID))
+		}
+		err = f(root, nest)
+		end := h.Rec.Mark()
+		if pre < 0 {
+			pre = end
+		}
+		if lo < 0 {
+			lo = end
+		}
+		if hi < 0 {
+			hi = end
+		}
+		return err, span{pre, lo, hi}
 	}
+	// window splits the context-carrying driver calls made since mark into those of the bound handle and the others
+	window := func(mark int, w span) (in, out []recdrv.Event) {
+		all := h.Rec.Since(mark)
+		in = ctxEvents(all[w.lo-mark : w.hi-mark])
+		out = append(ctxEvents(all[:w.pre-mark]), ctxEvents(all[w.hi-mark:])...)
+		return
+	}
+	name := strings.Fields(o.desc)[0]
 	// (1) live context
 	parent1, cancelParent1 := newParent()
 	defer cancelParent1()
-	bound := mk(parent1)
 	txm.ResetHooks()
 	mark := h.Rec.Mark()
-	err := exec(bound)
+	err, w := exec(parent1, 0)
 	liveErr := err
-	evs := ctxEvents(h.Rec.Since(mark))
+	evs, outEvs := window(mark, w)
 	hooks := txm.H.Log
+	c.Logf("  %d context-carrying driver calls on behalf of the bound handle, %d of the blocks above it, %d hooks", len(evs), len(outEvs), len(hooks))
 	var problems []string
 	if err != nil {
 		c.Inc("op_errors")
@@ -411,13 +541,19 @@ func run(c *core.Ctx) {
 			problems = append(problems, fmt.Sprintf("driver call under a context that had ended (%v) although the operation's is alive: %s", e.CtxErr, short(e.String())))
 		}
 	}
+	for _, e := range outEvs {
+		// the blocks opened above the binding were started from the outer handle: they keep its context
+		if e.CtxVal != outerVal || e.CtxErr != nil {
+			problems = append(problems, fmt.Sprintf("driver call of a block opened from the outer handle (context value %v) carries context value %v (err %v): %s", outerVal, e.CtxVal, e.CtxErr, short(e.String())))
+		}
+	}
 	for _, hk := range hooks {
 		if hk.CtxVal != opID {
 			problems = append(problems, fmt.Sprintf("hook %s received a handle without the operation's context (value %v)", hk.String(), hk.CtxVal))
 		}
 	}
 	c.Inc("operations")
-	c.Add("driver_events_checked", len(evs))
+	c.Add("driver_events_checked", len(evs)+len(outEvs))
 	c.Add("hook_contexts_checked", len(hooks))
 	// the context OBJECT of every driver call is the caller's: same deadline, and when the caller's context ends
 	// (after the operation) the context of every call the operation made has ended too
@@ -442,18 +578,23 @@ func run(c *core.Ctx) {
 		c.Add("driver_contexts_cancelled_after", len(evs))
 	}
 	if len(detached) > 0 {
-		c.Violation("ctx-detached/"+strings.Fields(o.desc)[0], map[string]interface{}{"op": desc, "problems": detached})
+		c.Violation("ctx-detached/"+name, map[string]interface{}{"op": desc, "problems": detached})
 	}
 	if len(problems) > 0 {
-		c.Violation("ctx-lost/"+strings.Fields(o.desc)[0], map[string]interface{}{"op": desc, "problems": problems})
+		c.Violation("ctx-lost/"+name, map[string]interface{}{"op": desc, "problems": problems})
 	} else if len(evs) >= 2 {
 		kinds := map[recdrv.Kind]bool{}
 		for _, e := range evs {
 			kinds[e.Kind] = true
 		}
-		c.Shape(strings.Fields(o.desc)[0], prep, nest, viaSession, len(kinds), len(evs) > 6, chain > 0, manualTx, sess)
+		c.Shape(name, prep, nest, viaSession, len(kinds), len(evs) > 6, chain > 0, manualTx, sess, bd.how, bd.depth, bd.outer)
 		if chain > 0 && sibling > 0 {
 			c.Inc("chain_value_with_sibling_runs")
+		}
+		if bd.how != 0 {
+			c.Inc("bound_by_a_scope_runs")
+		} else if bd.depth > 0 {
+			c.Inc("bound_inside_a_block_runs")
 		}
 		if c.WantSample() && len(evs) > 4 {
 			ss := []string{}
@@ -477,12 +618,11 @@ func run(c *core.Ctx) {
 		cctx, cancel = context.WithDeadline(parent, time.Unix(1, 0))
 		defer cancel()
 	}
-	bound = mk(cctx)
 	txm.ResetHooks()
 	mark = h.Rec.Mark()
-	err = exec(bound)
+	err, w = exec(cctx, 0)
 	var ran []string
-	for _, e := range h.Rec.Since(mark) {
+	for _, e := range h.Rec.Since(mark)[w.lo-mark : w.hi-mark] {
 		if e.IsStatement() || e.Kind == recdrv.KBegin {
 			ran = append(ran, short(e.String()))
 		}
@@ -496,7 +636,7 @@ func run(c *core.Ctx) {
 		if err == nil {
 			p = append(p, "no error returned for a cancelled context")
 		}
-		c.Violation("cancelled/"+strings.Fields(o.desc)[0], map[string]interface{}{"op": desc, "problems": p})
+		c.Violation("cancelled/"+name, map[string]interface{}{"op": desc, "problems": p})
 	}
 	// (2b) a handle bound to a (cancelled) context and bound again to context.Background(): the operation runs under
 	// the new context; nothing of the old one (its value, its cancellation) reaches a driver call or a hook
@@ -505,15 +645,12 @@ func run(c *core.Ctx) {
 			c.Inconclusive("could not restore the tables: " + err.Error())
 			return
 		}
-		rebound := mk(cctx).WithContext(context.Background())
-		if c.Case%2 == 0 {
-			rebound = mk(cctx).Session(&gorm.Session{Context: context.Background()})
-		}
 		txm.ResetHooks()
 		mark = h.Rec.Mark()
-		rerr := exec(rebound)
+		rerr, w := exec(cctx, 1+c.Case%2)
+		in, _ := window(mark, w)
 		var p []string
-		for _, e := range ctxEvents(h.Rec.Since(mark)) {
+		for _, e := range in {
 			if e.CtxVal != nil || e.CtxErr != nil {
 				p = append(p, fmt.Sprintf("a driver call of the re-bound handle still carries the old context (value %v, err %v): %s", e.CtxVal, e.CtxErr, short(e.String())))
 				break
@@ -530,7 +667,7 @@ func run(c *core.Ctx) {
 		}
 		c.Inc("rebound_to_background_runs")
 		if len(p) > 0 {
-			c.Violation("rebound/"+strings.Fields(o.desc)[0], map[string]interface{}{"op": desc, "problems": p})
+			c.Violation("rebound/"+name, map[string]interface{}{"op": desc, "problems": p})
 		}
 	}
 	// (3) cancelled in mid-operation, at up to 3 (thorough: every) positions
@@ -544,26 +681,30 @@ func run(c *core.Ctx) {
 		ks = []int{1, 1 + r.Intn(K-1), K - 1}
 	}
 	for _, k := range ks {
-		cancelMidway(c, h, parent, mk, exec, k, desc, strings.Fields(o.desc)[0])
+		if err := reseed(h); err != nil {
+			c.Inconclusive("could not restore the tables after a cancelled run: " + err.Error())
+			return
+		}
+		cancelMidway(c, h, parent, opID, exec, window, k, desc, name)
 	}
 }
 
-// cancelMidway runs the operation once more and cancels its context while the k-th context-carrying driver call
-// is being made (that call itself may still complete): no later call of the operation may reach the driver, an
-// error must come back. A statement issued through a fresh internal session after that point would show here.
-func cancelMidway(c *core.Ctx, h *vdb.Handle, parent context.Context, mk func(context.Context) *gorm.DB, exec func(*gorm.DB) error, k int, desc, name string) {
-	if err := reseed(h); err != nil {
-		c.Inconclusive("could not restore the tables after a cancelled run: " + err.Error())
-		return
-	}
+// cancelMidway runs the operation once more and cancels its context while the k-th driver call made under it
+// is being made (that call itself may still complete): no later call on behalf of the bound handle may reach the
+// driver, an error must come back. A statement issued through a fresh internal session after that point would show
+// here. (Calls of blocks opened from an outer handle - their ROLLBACK TO SAVEPOINT - are under the outer context.)
+func cancelMidway(c *core.Ctx, h *vdb.Handle, parent context.Context, opID string, exec func(context.Context, int) (error, span),
+	window func(mark int, w span) (in, out []recdrv.Event), k int, desc, name string) {
 	cctx, cancel := context.WithCancel(parent)
 	defer cancel()
-	bound := mk(cctx)
 	txm.ResetHooks()
 	var n, cancelSeq, cancelStmt int64
 	h.Rec.SetHook(func(ev *recdrv.Event) error {
 		switch ev.Kind {
 		case recdrv.KBegin, recdrv.KPrepare, recdrv.KExec, recdrv.KQuery, recdrv.KStmtExec, recdrv.KStmtQuery:
+			if ev.CtxVal != opID {
+				return nil
+			}
 			if atomic.AddInt64(&n, 1) == int64(k) {
 				atomic.StoreInt64(&cancelSeq, ev.Seq)
 				if ev.Kind == recdrv.KPrepare {
@@ -577,7 +718,7 @@ func cancelMidway(c *core.Ctx, h *vdb.Handle, parent context.Context, mk func(co
 		return nil
 	})
 	mark := h.Rec.Mark()
-	err := exec(bound)
+	err, w := exec(cctx, 0)
 	h.Rec.SetHook(nil)
 	cs := atomic.LoadInt64(&cancelSeq)
 	if cs == 0 {
@@ -585,7 +726,8 @@ func cancelMidway(c *core.Ctx, h *vdb.Handle, parent context.Context, mk func(co
 	}
 	c.Inc("cancelled_midway_runs")
 	var ran []string
-	for _, e := range ctxEvents(h.Rec.Since(mark)) {
+	in, _ := window(mark, w)
+	for _, e := range in {
 		if e.Seq > cs && !(e.Stmt != 0 && e.Stmt == atomic.LoadInt64(&cancelStmt) && (e.Kind == recdrv.KStmtExec || e.Kind == recdrv.KStmtQuery)) {
 			ran = append(ran, fmt.Sprintf("(context value %v, its Err at the call: %v) %s", e.CtxVal, e.CtxErr, short(e.String())))
 		}
@@ -642,9 +784,9 @@ var Engine = &core.Engine{
 	},
 	Cases: func(tier string) int {
 		if tier == "thorough" {
-			return 80 * 600
+			return 110 * 500
 		}
-		return 80 * 60
+		return 110 * 50
 	},
 	Batch:         func(string) int { return 40 },
 	Run:           run,
